@@ -9,6 +9,7 @@ import (
 	"io"
 	"net"
 	"net/netip"
+	"os"
 	"strings"
 	"sync"
 	"sync/atomic"
@@ -51,7 +52,29 @@ type c09Behaviour struct {
 	Qof       map[string]string `json:"qof"`
 }
 
-func c09Name(q string) string { return q + ".test." }
+// Two ways of making the questions qa / qb different: by name (default), or - VERIF_C09_QMODE=type - by record type only:
+// the same name asked for A and for CAA (type 257, whose low byte equals A's).
+var c09ByType = os.Getenv("VERIF_C09_QMODE") == "type"
+
+func c09Name(q string) string {
+	if c09ByType {
+		return "q.test."
+	}
+	return q + ".test."
+}
+func c09Type(q string) uint16 {
+	if c09ByType && q != "qa" {
+		return dnsmessage.TypeCAA
+	}
+	return dnsmessage.TypeA
+}
+func c09RR(q string) dnsmessage.RR {
+	hdr := dnsmessage.RR_Header{Name: c09Name(q), Rrtype: c09Type(q), Class: dnsmessage.ClassINET, Ttl: 300}
+	if c09Type(q) == dnsmessage.TypeCAA {
+		return &dnsmessage.CAA{Hdr: hdr, Flag: 0, Tag: "issue", Value: "ca.example"}
+	}
+	return &dnsmessage.A{Hdr: hdr, A: c09IP(q)}
+}
 func c09IP(q string) net.IP {
 	if q == "qa" {
 		return net.IPv4(198, 51, 100, 1).To4()
@@ -184,8 +207,8 @@ func c09Answer(req c09Req, q string) []byte {
 	r.Id = req.id
 	r.Response = true
 	r.RecursionAvailable = true
-	r.Question = []dnsmessage.Question{{Name: c09Name(q), Qtype: dnsmessage.TypeA, Qclass: dnsmessage.ClassINET}}
-	r.Answer = []dnsmessage.RR{&dnsmessage.A{Hdr: dnsmessage.RR_Header{Name: c09Name(q), Rrtype: dnsmessage.TypeA, Class: dnsmessage.ClassINET, Ttl: 300}, A: c09IP(q)}}
+	r.Question = []dnsmessage.Question{{Name: c09Name(q), Qtype: c09Type(q), Qclass: dnsmessage.ClassINET}}
+	r.Answer = []dnsmessage.RR{c09RR(q)}
 	b, err := r.Pack()
 	if err != nil {
 		panic(err)
@@ -302,7 +325,7 @@ func c09RunOne(t *testing.T, b *c09Behaviour, res *verifutil.Result) {
 			rmu.Unlock()
 			time.Sleep(gap)
 			q := new(dnsmessage.Msg)
-			q.SetQuestion(c09Name(b.Qof[c]), dnsmessage.TypeA)
+			q.SetQuestion(c09Name(b.Qof[c]), c09Type(b.Qof[c]))
 			q.Id = uint16(b.Cid[c])
 			w := &c07Writer{}
 			req := &udpRequest{realSrc: netip.MustParseAddrPort("192.0.2.10:41000"), realDst: netip.MustParseAddrPort("192.0.2.1:53"), routingResult: &bpfRoutingResult{}}
@@ -381,16 +404,16 @@ func c09RunOne(t *testing.T, b *c09Behaviour, res *verifutil.Result) {
 			}
 			if got == "msg" {
 				m := r.msg
-				okq := len(m.Question) == 1 && strings.EqualFold(m.Question[0].Name, c09Name(b.Qof[c])) && m.Question[0].Qtype == dnsmessage.TypeA
+				okq := len(m.Question) == 1 && strings.EqualFold(m.Question[0].Name, c09Name(b.Qof[c])) && m.Question[0].Qtype == c09Type(b.Qof[c])
 				oka := true
 				for _, rr := range m.Answer {
-					if !strings.EqualFold(rr.Header().Name, c09Name(b.Qof[c])) {
+					if !strings.EqualFold(rr.Header().Name, c09Name(b.Qof[c])) || rr.Header().Rrtype != c09Type(b.Qof[c]) {
 						oka = false
 					}
 				}
 				if int(m.Id) != b.Cid[c] || !okq || !oka || !m.Response {
 					rmu.Unlock()
-					fail("|reply", "client %s (id %d, question %s) was sent a reply with id %d, question %v, answers %v", c, b.Cid[c], c09Name(b.Qof[c]), m.Id, m.Question, m.Answer)
+					fail("|reply", "client %s (id %d, question %s type %d) was sent a reply with id %d, question %v, answers %v", c, b.Cid[c], c09Name(b.Qof[c]), c09Type(b.Qof[c]), m.Id, m.Question, m.Answer)
 					return
 				}
 			}
